@@ -72,10 +72,11 @@ def interpret(u, text, res):
     """-> dict(failed={oid: [msgs]}, undecided=[reasons], verified=n, errors=n)"""
     tab = vxgen.span_table(text)
     failed = {}
+    hint_failed = {}
     undecided = []
     canary_hits = set()
     if res['status'] != 'ran':
-        return {'failed': {}, 'undecided': ['verus ' + res['status']], 'verified': 0, 'errors': 0, 'canary_hits': canary_hits, 'smt_ms': 0}
+        return {'failed': {}, 'hint_failed': {}, 'undecided': ['verus ' + res['status']], 'verified': 0, 'errors': 0, 'canary_hits': canary_hits, 'smt_ms': 0}
     js = res['json']
     if js is None:
         undecided.append('no JSON result from verus (rc=%s): %s' % (res.get('rc'), ' | '.join(res['stderr_other'][:5])))
@@ -134,7 +135,7 @@ def interpret(u, text, res):
             # failing ghost hint inside a function: find enclosing FN
             encl = [t for t in tab if t[2] == 'FN' and t[0] <= s <= t[1]]
             fid = encl[0][3] if encl else '?'
-            failed.setdefault(fid + '/body', []).append('ghost hint no longer holds: ' + detail)
+            hint_failed.setdefault(fid, []).append('proof hint no longer holds: ' + detail)
         else:  # FN
             failed.setdefault(oid + '/body', []).append(detail)
     smt = 0
@@ -142,13 +143,13 @@ def interpret(u, text, res):
         smt = js['times-ms']['smt']['smt-run']
     except Exception:
         pass
-    return {'failed': failed, 'undecided': undecided, 'verified': vr.get('verified', 0), 'errors': vr.get('errors', 0),
+    return {'failed': failed, 'hint_failed': hint_failed, 'undecided': undecided, 'verified': vr.get('verified', 0), 'errors': vr.get('errors', 0),
             'canary_hits': canary_hits, 'smt_ms': smt, 'total_ms': (js or {}).get('times-ms', {}).get('total', 0)}
 
 
 def run_unit(name, repo, workdir, with_canary=True, keep=True):
     os.makedirs(workdir, exist_ok=True)
-    out = {'unit': name, 'engine': 'VX', 'obligations': [], 'failed': {}, 'undecided': [], 'functions': [], 'assumptions': []}
+    out = {'unit': name, 'engine': 'VX', 'obligations': [], 'failed': {}, 'hint_failed': {}, 'undecided': [], 'functions': [], 'assumptions': []}
     t0 = time.time()
     try:
         u = build_unit(name, repo, canary=False)
@@ -164,6 +165,7 @@ def run_unit(name, repo, workdir, with_canary=True, keep=True):
     it = interpret(u, text, res)
     out['obligations'] = u.obligations()
     out['failed'] = it['failed']
+    out['hint_failed'] = it['hint_failed']
     out['undecided'] = it['undecided']
     out['verified_fns'] = it['verified']
     out['verus_errors'] = it['errors']
@@ -178,14 +180,14 @@ def run_unit(name, repo, workdir, with_canary=True, keep=True):
                                      'sha_repo': f.sha_repo, 'sha_emitted': f.sha_emitted, 'kx': f.kx,
                                      'edits': ['%s %s %s' % e for e in f.edits], 'contract': f.contract_text})
     # an error count that does not match what we attributed means something escaped the mapping
-    if it['errors'] and not it['failed'] and not it['undecided']:
+    if it['errors'] and not it['failed'] and not it['undecided'] and not it['hint_failed']:
         out['undecided'].append('verus reported %d errors that could not be attributed' % it['errors'])
     n_verified_expected = len([f for f in u.functions if f.role == 'verified'])
     out['n_under_contract'] = n_verified_expected
-    if not it['failed'] and not it['undecided'] and it['verified'] < n_verified_expected:
+    if not it['failed'] and not it['undecided'] and not it['hint_failed'] and it['verified'] < n_verified_expected:
         out['undecided'].append('verus verified %d items, fewer than the %d functions under contract' % (it['verified'], n_verified_expected))
     # canary run: every function under contract must be reachable under its requires
-    if with_canary and not out['undecided']:
+    if with_canary and not out['undecided'] and not out['failed'] and not out['hint_failed']:
         uc = build_unit(name, repo, canary=True)
         ctext = uc.render()
         cpath = os.path.join(workdir, name + '_canary.rs')
